@@ -19,7 +19,7 @@ pub static EXPECTED: Scenario = Scenario {
     run,
     quick_runs: 6000,
     thorough_runs: 200_000,
-    rule: "one run = a caller Network and an address book of 4 addresses hosting the expected peer E, another honest identity O, an impostor replaying E's certificate with a foreign key (acknowledgement implemented) and nobody; 2-7 concurrent connect / connect_with_peer_id calls at PRNG instants under PRNG handshake loss, duplication and corruption; distinct = distinct order signature (per call: target kind, expectation, result; events on caller, E and O); non-trivial = every run with a mismatching dial or a fault",
+    rule: "one run = a caller Network and an address book of 5 addresses hosting the expected peer E, another honest identity O, an impostor replaying E's certificate with a foreign key (acknowledgement implemented), a party with its own key presenting E's certificate behind its own in the chain, and nobody; 2-7 concurrent connect / connect_with_peer_id calls at PRNG instants under PRNG handshake loss, duplication and corruption; distinct = distinct order signature (per call: target kind, expectation, result; events on caller, E and O); non-trivial = every run with a mismatching dial or a fault",
     real: super::REAL_NET,
     stubbed: super::STUB_NET,
 };
@@ -29,6 +29,8 @@ enum Target {
     E,
     O,
     Impostor,
+    /// holds its own key M and presents the chain [cert(M), cert(E)]
+    Chain,
     Nobody,
 }
 
@@ -60,17 +62,27 @@ fn run(input: RunInput) -> ScenFuture {
             idx: 9, port: 7000, chain: vec![gen_cert(&ke, "sim")], sign_key: k_imp, present_client_cert: true,
             idle_ms: 6_000, keep_alive_ms: Some(1_500), max_bidi: 100,
         });
+        // a party with a key of its own (M) that presents E's certificate *behind* its own one:
+        // whatever is reached there is M, never E
+        let km = w.key_for(8);
+        let m_id = public_key(&km);
+        w.name_peer(m_id, "M");
+        let chain_ep = adv_endpoint(&w, AdvSpec {
+            idx: 8, port: 7000, chain: vec![gen_cert(&km, "sim"), gen_cert(&ke, "sim")], sign_key: km, present_client_cert: true,
+            idle_ms: 6_000, keep_alive_ms: Some(1_500), max_bidi: 100,
+        });
         let imp_accepted = Arc::new(Mutex::new(0u32));
-        {
+        for (ep, counted) in [(imp.ep.clone(), true), (chain_ep.ep.clone(), false)] {
             // the impostor implements the acknowledgement, so only TLS stands between it and success
-            let ep = imp.ep.clone();
             let acc = imp_accepted.clone();
             tokio::spawn(async move {
                 while let Some(inc) = ep.accept().await {
                     let acc = acc.clone();
                     tokio::spawn(async move {
                         if let Ok(conn) = inc.await {
-                            *acc.lock().unwrap() += 1;
+                            if counted {
+                                *acc.lock().unwrap() += 1;
+                            }
                             if let Ok(mut s) = conn.open_uni().await {
                                 let _ = s.write_all(&wire::preamble(1)).await;
                                 let _ = s.finish();
@@ -99,19 +111,21 @@ fn run(input: RunInput) -> ScenFuture {
                 Target::E => addr(2),
                 Target::O => o.addr,
                 Target::Impostor => imp.addr,
+                Target::Chain => chain_ep.addr,
                 Target::Nobody => addr(77),
             }
         };
         let mut r = w.rng("wl:calls");
         let mut plan = Vec::new();
         for _ in 0..n_calls {
-            let t = [Target::E, Target::O, Target::Impostor, Target::Nobody][r.gen_range(0..4)];
-            // expectation: Some(E) / Some(O) / None (plain connect)
+            let t = [Target::E, Target::O, Target::Impostor, Target::Nobody, Target::Chain][r.gen_range(0..5)];
+            // expectation: Some(E) / Some(O) / None (plain connect) / sometimes Some(M)
             let expect: Option<PeerId> = match r.gen_range(0..3) {
                 0 => None,
                 1 => Some(e_id),
                 _ => Some(o.peer_id),
             };
+            let expect = if t == Target::Chain && r.gen_bool(0.4) { Some(m_id) } else { expect };
             // keep O unconnected from C in runs that use it as a mismatch-only target
             let expect = if t == Target::O && !o_plain_ok { Some(e_id) } else { expect };
             plan.push((t, expect, if spread_us == 0 { 0 } else { r.gen_range(0..=spread_us) }));
@@ -143,6 +157,7 @@ fn run(input: RunInput) -> ScenFuture {
             match t {
                 Target::E => e_online.then_some(e_id),
                 Target::O => Some(o.peer_id),
+                Target::Chain => Some(m_id),
                 _ => None,
             }
         };
@@ -163,7 +178,9 @@ fn run(input: RunInput) -> ScenFuture {
                 Err(e) => {
                     if !lossy {
                         // fault-free: a dial to the right party with a matching (or no) expectation succeeds
-                        let should = holder(t).map(|h| expect.map(|x| x == h).unwrap_or(true)).unwrap_or(false);
+                        // (whether a chain of several certificates is acceptable at all is not this
+                        // property's business: no success is demanded there)
+                        let should = t != Target::Chain && holder(t).map(|h| expect.map(|x| x == h).unwrap_or(true)).unwrap_or(false);
                         w.check(!should, "matching-dial-failed-without-loss", key.clone(), || format!("call {i} failed: {e}"));
                     }
                 }
@@ -191,11 +208,11 @@ fn run(input: RunInput) -> ScenFuture {
         }
         if *imp_accepted.lock().unwrap() > 0 { w.probe("impostor-saw-completed-tls(plain-connect)"); }
         for p in c.net.peers() {
-            w.check(Some(p) == e_online.then_some(e_id) || p == o.peer_id, "listed-identity-nobody-holds", w.pname(&p), || "caller lists an identity that no reachable endpoint holds".into());
+            w.check(Some(p) == e_online.then_some(e_id) || p == o.peer_id || p == m_id, "listed-identity-nobody-holds", w.pname(&p), || "caller lists an identity that no reachable endpoint holds".into());
         }
         w.sample("calls", json!({"e_online": e_online, "lossy": lossy, "calls": results.iter().map(|(i, r, _)| json!({"target": format!("{:?}", plan[*i].0), "expect": plan[*i].1.map(|p| w.pname(&p)), "result": r.as_ref().map(|p| w.pname(p)).map_err(|e| e.chars().take(60).collect::<String>())})).collect::<Vec<_>>()}));
         let out = w.finish();
-        drop((c, e, o, imp));
+        drop((c, e, o, imp, chain_ep));
         out
     })
 }
